@@ -1,5 +1,6 @@
 pub mod bep42;
 pub mod tid;
+pub mod token;
 
 use crate::Engine;
 
@@ -7,6 +8,7 @@ pub fn make(name: &str) -> Option<Box<dyn Engine>> {
     match name {
         "bep42" => Some(Box::new(bep42::Bep42::default())),
         "tid" => Some(Box::new(tid::Tid::default())),
+        "token" => Some(Box::new(token::TokenEngine::default())),
         _ => None,
     }
 }
